@@ -68,6 +68,21 @@ def run(ctx):
     mism2, results2 = M.validate_programs(ctx, storms, "storm", shards=min(8, len(storms)), maxsteps=20000)
     M.report_mismatches(ctx, storms, mism2, sigs_fn)
     ctx.stage("storm", programs=len(storms), forms=sum(len(p) for p in storms), mismatches=len(mism2))
+    # ---- division by an exact zero where inexact operands are around: the machine has no reals, so these calls are judged by
+    # the numeric specification (NumbersX!ArithVerdict: an exact dividend or partial quotient divided by exact zero is an error)
+    from . import numbers as N
+    from . import scheme as S_
+    R25 = {"t": "real", "s": 0, "e": 128, "m": 2097152}      # 2.5
+    I = lambda n: {"t": "int", "v": n}
+    zc = []
+    for a in (1, 7, -3, 0):
+        for texts_, args in ((["%d" % a, "0", "2.5"], [I(a), I(0), R25]), (["%d" % a, "0"], [I(a), I(0)]), (["%d" % a, "2", "0", "2.5"], [I(a), I(2), I(0), R25]),
+                             (["%d" % a, "0", "2.5", "2.5"], [I(a), I(0), R25, R25])):
+            for shape in ("(/ %s)", "(apply / (list %s))", "((lambda (f) (f %s)) /)", "(car (map (lambda (q) (/ %s)) '(1)))", "(let ((r (/ %s))) r)"):
+                zc.append({"op": "/", "srcs": texts_, "args": args, "text": shape % " ".join(texts_)})
+    badz, _ = N.validate_cases(ctx, zc, "zero-division", shards=2)
+    N.report(ctx, "C08", badz, "division by exact zero in calling contexts")
+    ctx.stage("exact-zero-division", cases=len(zc), rejected=len(badz))
     ctx.assumptions += ["error kinds are compared as classes (message text and the Type named in a type error are not)",
                         "faults are injected only in sequenced positions, so the effects completed before the fault are determined by R7RS"]
     return ctx.finish(rule="replay: Programs!FaultFamily (10 faulting operations x 11 calling contexts x position) compared form by form incl. the probes after the fault; "
